@@ -146,3 +146,110 @@ Section Kernel.
         rewrite <- out_term by assumption. lra.
   Qed.
 End Kernel.
+
+(* ------------------------------------------------------------------ the column weight is a KL divergence *)
+Lemma nth_seq_map : forall (b : list R) d, map (fun k => nth k b d) (seq 0 (length b)) = b.
+Proof. induction b; intros; simpl; auto. f_equal. rewrite <- seq_shift, map_map. apply IHb. Qed.
+
+Lemma gibbs_terms : forall (l : list (R * R)),
+  (forall q b, In (q, b) l -> 0 <= q /\ 0 <= b /\ (b = 0 -> q = 0)) ->
+  sumR (map fst l) - sumR (map snd l) <= sumR (map (fun p => fst p * ln (fst p / snd p)) l).
+Proof.
+  induction l as [|[q b] l IH]; intros H; simpl; [lra|].
+  assert (Hl : forall q b, In (q, b) l -> 0 <= q /\ 0 <= b /\ (b = 0 -> q = 0)) by (intros; apply H; right; assumption).
+  specialize (IH Hl). destruct (H q b (or_introl eq_refl)) as (Hq & Hb & Hz).
+  assert (q - b <= q * ln (q / b)).
+  { destruct (Req_dec q 0) as [->|Hq0]; [rewrite Rmult_0_l; lra|].
+    assert (b <> 0) by (intro; apply Hq0; auto). apply xlnx_lower; lra. }
+  lra.
+Qed.
+
+Section Column.
+  Variable eps : R.
+  Notation O := (R_ops eps).
+
+  Lemma kl_sum_from_seq : forall inds data s N bs k0,
+    kl_sum_from inds data s N (Z.of_nat k0) bs
+    = sumR (map (fun k => kl_term (dense R 0 inds data (Z.of_nat k)) (nth (k - k0) bs 0) s N) (seq k0 (length bs))).
+  Proof.
+    induction bs as [|bi bs IH]; intros k0; simpl; [reflexivity|].
+    rewrite Nat.sub_diag. f_equal.
+    replace (Z.of_nat k0 + 1)%Z with (Z.of_nat (S k0)) by lia. rewrite IH.
+    apply sumR_map_ext_in. intros k Hk. apply in_seq in Hk.
+    replace (k - k0)%nat with (S (k - S k0)) by lia. reflexivity.
+  Qed.
+
+  (* SPEC: sum over the rows of q_i ln(q_i / b_i), q_i = (c_i + s b_i) / (C + s), c_i = the column's dense entry *)
+  Definition kl_column (inds : list Z) (data : list R) (b : list R) (s : R) : R :=
+    sumR (map (fun k => kl_term (dense R 0 inds data (Z.of_nat k)) (nth k b 0) s (sumR data + s)) (seq 0 (length b))).
+
+  Theorem column_kl_exact_R : forall inds data b s,
+    sparse_ok R inds data -> nonnegv data -> nonnegv b -> 0 < s ->
+    column_kl_exact R O inds data b s = Some (kl_column inds data b s).
+  Proof.
+    intros inds data b s [Hi Hl] Hd Hb Hs.
+    assert (HN : 0 < sumR data + s) by (pose proof (sumR_nonneg data Hd); lra).
+    unfold column_kl_exact. simpl. rewrite sum_list_R.
+    rewrite (ckl_loop_R eps inds data s (sumR data + s) Hi Hl HN b 0%Z 0).
+    - f_equal. rewrite Rplus_0_l. rewrite (kl_sum_from_seq inds data s _ b 0). unfold kl_column.
+      apply sumR_map_ext_in. intros k _. rewrite Nat.sub_0_r. reflexivity.
+    - intros k Hk. unfold posterior.
+      assert (0 <= dense R 0 inds data (0 + Z.of_nat k)) by (apply dense_nonneg; assumption).
+      assert (0 <= nth k b 0).
+      { unfold nonnegv in Hb. rewrite Forall_forall in Hb. apply Hb. apply nth_In. assumption. }
+      apply Rmult_le_pos; [nra|]. left. apply Rinv_0_lt_compat. assumption.
+  Qed.
+
+  (* every logarithm the kernel takes has a positive argument *)
+  Lemma ln_args_positive : forall c bi s C, 0 <= c -> 0 <= C -> 0 < s -> 0 <= bi -> (0 < c -> 0 < bi) ->
+    0 < s / (C + s) /\ (0 < posterior c bi s (C + s) -> 0 < posterior c bi s (C + s) / bi).
+  Proof.
+    intros c bi s C Hc HC Hs Hb Hcb. split.
+    - apply Rdiv_lt_0_compat; lra.
+    - intros Hp. assert (0 < bi).
+      { destruct (Req_dec bi 0) as [->|]; [|lra]. destruct (Req_dec c 0) as [->|]; [|assert (0 < c) by lra; auto].
+        unfold posterior in Hp. rewrite Rmult_0_r, Rplus_0_l in Hp. unfold Rdiv in Hp. rewrite Rmult_0_l in Hp. lra. }
+      apply Rdiv_lt_0_compat; assumption.
+  Qed.
+
+  Theorem kl_column_nonneg : forall inds data b s,
+    sparse_ok R inds data -> in_range (length b) inds -> nonnegv data -> nonnegv b -> 0 < s ->
+    sumR b = 1 -> (forall k, 0 < dense R 0 inds data (Z.of_nat k) -> 0 < nth k b 0) ->
+    0 <= kl_column inds data b s.
+  Proof.
+    intros inds data b s Hok Hr Hd Hb Hs Hb1 Hpos.
+    assert (HN : 0 < sumR data + s) by (pose proof (sumR_nonneg data Hd); lra).
+    set (N := sumR data + s) in *.
+    set (l := map (fun k => (posterior (dense R 0 inds data (Z.of_nat k)) (nth k b 0) s N, nth k b 0)) (seq 0 (length b))).
+    assert (E : kl_column inds data b s = sumR (map (fun p => fst p * ln (fst p / snd p)) l)).
+    { unfold kl_column, l. rewrite map_map. reflexivity. }
+    assert (Hq : sumR (map fst l) = 1).
+    { unfold l. rewrite map_map. simpl. unfold posterior.
+      rewrite (sumR_map_ext_in _ _ (fun k => dense R 0 inds data (Z.of_nat k) / N + s / N * nth k b 0))
+        by (intros; field; lra).
+      rewrite sumR_map_plus.
+      assert (E1 : sumR (map (fun k => dense R 0 inds data (Z.of_nat k) / N) (seq 0 (length b))) = sumR data / N).
+      { rewrite <- (sumR_to_dense (length b) inds data Hok Hr). unfold to_dense.
+        rewrite <- sumR_div. rewrite map_map. reflexivity. }
+      assert (E2 : sumR (map (fun k => s / N * nth k b 0) (seq 0 (length b))) = s / N * sumR b).
+      { rewrite <- sumR_scal. f_equal. rewrite <- (map_map (fun k => nth k b 0) (fun x => s / N * x)).
+        f_equal. apply nth_seq_map. }
+      rewrite E1, E2, Hb1. unfold N in *. field. lra. }
+    assert (Hbs : sumR (map snd l) = 1).
+    { unfold l. rewrite map_map. simpl. rewrite <- Hb1. f_equal. apply nth_seq_map. }
+    rewrite E. pose proof (gibbs_terms l) as G. rewrite Hq, Hbs in G.
+    assert (0 <= sumR (map (fun p => fst p * ln (fst p / snd p)) l)); [|assumption].
+    apply Rle_trans with (1 - 1); [lra|]. apply G.
+    intros q bq Hin. unfold l in Hin. apply in_map_iff in Hin. destruct Hin as (k & Hk & Hks).
+    inversion Hk; subst q bq. apply in_seq in Hks.
+    assert (Hc : 0 <= dense R 0 inds data (Z.of_nat k)) by (apply dense_nonneg; assumption).
+    assert (Hbk : 0 <= nth k b 0).
+    { unfold nonnegv in Hb. rewrite Forall_forall in Hb. apply Hb. apply nth_In. lia. }
+    repeat split; auto.
+    - unfold posterior. apply Rmult_le_pos; [nra|]. left. apply Rinv_0_lt_compat. assumption.
+    - intros Hz. unfold posterior. rewrite Hz.
+      destruct (Req_dec (dense R 0 inds data (Z.of_nat k)) 0) as [->|Hne].
+      + rewrite Rmult_0_r, Rplus_0_l. unfold Rdiv. apply Rmult_0_l.
+      + assert (0 < nth k b 0) by (apply Hpos; lra). lra.
+  Qed.
+End Column.
